@@ -262,14 +262,22 @@ def oracle_statsmodels(case, ctx):
         from sktime.forecasting.ets import AutoETS
 
         o = case["opts"]
-        init = o.get("init", "estimated") if o.get("init") in ("estimated", "heuristic") else "estimated"
+        init = o.get("init", "estimated")
         if init == "heuristic" and (len(y) < 10 or (o["seasonal"] and len(y) < 2 * (o["sp"] or 1) + 10)):
             init = "estimated"
+        extra = {}
+        if init == "known":
+            # initial states given by the user (each its own value)
+            extra["initial_level"] = float(y.iloc[0])
+            if o["trend"]:
+                extra["initial_trend"] = 0.75
+            if o["seasonal"]:
+                extra["initial_seasonal"] = [0.25 * (j + 1) if o["seasonal"] == "add" else 1.0 + 0.01 * (j + 1) for j in range(o["sp"])]
         f = AutoETS(error=o["error"], trend=o["trend"], damped_trend=o["damped"], seasonal=o["seasonal"],
-                    sp=o["sp"] or 1, auto=False, initialization_method=init)
+                    sp=o["sp"] or 1, auto=False, initialization_method=init, **extra)
         ref = sut(lambda: SM(pd.Series(y.to_numpy(), index=pd.RangeIndex(len(y))), error=o["error"], trend=o["trend"],
                              damped_trend=o["damped"], seasonal=o["seasonal"], seasonal_periods=o["sp"] or 1,
-                             initialization_method=init).fit(disp=False))
+                             initialization_method=init, **extra).fit(disp=False))
         ctx.label("init=%s" % init)
     if isinstance(ref, Raised):
         # statsmodels itself refuses this configuration: sktime must not return a forecast
